@@ -60,6 +60,7 @@ type c18session struct {
 	stray    int
 	redirected bool // via "redirect-first": the first DoH request has been answered with a redirect
 	refused  bool // via "refuse-first": the first TCP connect has been refused
+	gen      int  // observation epoch (resetObservations)
 
 	wg     sync.WaitGroup
 	ctx    context.Context
@@ -76,6 +77,15 @@ func c18newSession(c c18cfg, e c18expect) *c18session {
 		s.cert = c18leaf(e.TLSName)
 	}
 	return s
+}
+
+// resetObservations forgets what was seen so far (a prologue that is not judged).
+func (s *c18session) resetObservations() {
+	s.mu.Lock()
+	defer s.mu.Unlock()
+	s.gen++ // sockets of the prologue may still send (a QUIC close): not observed any more
+	s.recs, s.hs, s.httpPath, s.answered = nil, nil, nil, 0
+	s.writeTo, s.resolved = map[string]int{}, map[string]bool{}
 }
 
 func (s *c18session) add(r vnet.Rec) bool {
@@ -246,6 +256,10 @@ func (c18sink) DialUDP(network string, laddr, raddr *net.UDPAddr) (net.Conn, err
 				r.Extra = append(r.Extra,
 					&dns.A{Hdr: dns.RR_Header{Name: "ns.c18-parent.test.", Rrtype: dns.TypeA, Class: dns.ClassINET, Ttl: 600}, A: net.ParseIP(c18glueAddr)},
 					&dns.AAAA{Hdr: dns.RR_Header{Name: "ns.c18-parent.test.", Rrtype: dns.TypeAAAA, Class: dns.ClassINET, Ttl: 600}, AAAA: net.ParseIP("2001:db8:66::66")})
+			} else if s.cfg.Via == "bootstrap-two" && strings.EqualFold(q.Question[0].Name, c18otherName+".") {
+				if q.Question[0].Qtype == dns.TypeA {
+					r.Answer = append(r.Answer, &dns.A{Hdr: dns.RR_Header{Name: q.Question[0].Name, Rrtype: dns.TypeA, Class: dns.ClassINET, Ttl: 600}, A: net.ParseIP(c18otherAnswer)})
+				}
 			} else if q.Question[0].Qtype == dns.TypeA {
 				r.Answer = append(r.Answer, &dns.A{Hdr: dns.RR_Header{Name: q.Question[0].Name, Rrtype: dns.TypeA, Class: dns.ClassINET, Ttl: 600},
 					A: net.ParseIP(c18bootAnswer)})
@@ -256,6 +270,9 @@ func (c18sink) DialUDP(network string, laddr, raddr *net.UDPAddr) (net.Conn, err
 			}
 			if _, err := b.Write(out); err != nil {
 				return
+			}
+			if s.cfg.Via == "bootstrap-two" {
+				b.Write(out) // the same datagram again
 			}
 		}
 	}()
@@ -570,6 +587,7 @@ type c18dgram struct {
 // destination of every WriteTo; whatever the destination, the datagram reaches
 // the one fake server (the oracle judges the recorded destination).
 type c18pkt struct {
+	gen    int
 	s      *c18session
 	client bool
 	local  *net.UDPAddr
@@ -585,7 +603,10 @@ type c18pkt struct {
 }
 
 func c18newPkt(s *c18session, client bool, local *net.UDPAddr) *c18pkt {
-	return &c18pkt{s: s, client: client, local: local, in: make(chan c18dgram, 512), closed: make(chan struct{}), wake: make(chan struct{})}
+	s.mu.Lock()
+	g := s.gen
+	s.mu.Unlock()
+	return &c18pkt{gen: g, s: s, client: client, local: local, in: make(chan c18dgram, 512), closed: make(chan struct{}), wake: make(chan struct{})}
 }
 
 func (p *c18pkt) LocalAddr() net.Addr { return p.local }
@@ -646,7 +667,7 @@ func (p *c18pkt) WriteTo(b []byte, addr net.Addr) (int, error) {
 	var from net.Addr = p.local
 	if p.client {
 		p.s.mu.Lock()
-		if !p.s.sealed {
+		if !p.s.sealed && p.gen == p.s.gen {
 			p.s.writeTo[addr.String()]++
 		}
 		p.s.mu.Unlock()
